@@ -98,6 +98,7 @@ def work(item, tier, seed):
     sels = [e for i, e in enumerate(sels) if i % nchunks == chunk]
     all_args = list(argsl) + list(ALT_ARGS.get(pname, []))
     raised = set()
+    regen_cache = {}
     for oi, old_args in enumerate(argsl):
         jold = tuple(jnp.asarray(a) for a in old_args)
         try:
@@ -129,7 +130,10 @@ def work(item, tier, seed):
                     sig = S.show(e)
                     det = dict(program=pname, old_args=old_args, new_args=new_args, selection=sig, old_choices=old_flat)
                     try:
-                        regen = jax.jit(lambda k, t, *a, sel=sel: gseed(fn.regenerate)(k, t, sel, *a))
+                        # one compiled function per selection expression, shared by all traces / argument pairs
+                        if sig not in regen_cache:
+                            regen_cache[sig] = jax.jit(lambda k, t, *a, sel=sel: gseed(fn.regenerate)(k, t, sel, *a))
+                        regen = regen_cache[sig]
                         env.run_recorded(regen, key, old_tr, *jnew)
                     except Exception as ex:
                         handler_stack.clear()
